@@ -60,7 +60,7 @@ func VerifyFunction(p *Program, c *Contract) (res *FuncResult) {
 }
 
 func (e *Engine) verifyTop(fn *ssa.Function, c *Contract, res *FuncResult) {
-	st := &State{pc: tTrue, cells: map[cellKey]Val{}, heaps: map[string]T{}, defers: map[int][]*deferEntry{}}
+	st := &State{pc: tTrue, cells: map[cellKey]Val{}, heaps: map[string]T{}, defers: map[int][]*deferEntry{}, toff: 1}
 	fr := e.newFrame(fn, nil)
 	fr.contract = c
 	e.cur = fr
